@@ -343,6 +343,34 @@ var FixedFamilies20 = func() []Family20 {
 	return out
 }()
 
+// GridFamilies20 is the systematic part of the thorough tier: every structural slot x every unit x
+// a few operations. The statement counter covers it too (the probe measures the same list).
+func GridFamilies20() []Family20 {
+	var out []Family20
+	for _, slot := range c20Slots {
+		i := strings.Index(slot, "{}")
+		prefix, suffix := slot[:i], strings.ReplaceAll(slot[i+2:], "{}", "x")
+		for _, unit := range c20Units {
+			for _, op := range []string{"parse", "gsb", "semantic", "href", "report"} {
+				f := Family20{Name: "grid/" + slot + "/" + unit + "/" + op, Prefix: B(prefix), Unit: B(unit), Suffix: B(suffix), Op: op}
+				if strings.HasPrefix(slot, "/") || strings.HasPrefix(slot, "?") || strings.HasPrefix(slot, "#") || strings.HasPrefix(slot, "//") {
+					f.Base = "http://b/c/d?e#f"
+				}
+				out = append(out, f)
+			}
+		}
+	}
+	return out
+}
+
+// Families20 lists the enumerated families of a tier.
+func Families20(tier string) []Family20 {
+	if tier == "thorough" {
+		return append(append([]Family20{}, FixedFamilies20...), GridFamilies20()...)
+	}
+	return FixedFamilies20
+}
+
 var c20Units = []string{"a", "/", "/a", "/.", "/..", "@", ":", "%", "%41", "%2e", "é", "\xff", "&a=b", "&", "=", "+", ".", "a.", "1.", "\\", "?", "#", " ", "\t", "[", "]", "0", "0x", "|", "C|/", "'", "\"", "<", "{", "^", ";", "~", "xn--", "%25", "\u00ad", "ß", "💩"}
 var c20Ops = []string{"parse", "parse", "gsb", "gsb", "semantic", "semantic", "href", "getters", "pathname", "searchparams", "clone", "whatwgsort", "reparse", "resolve", "report", "sp-sort", "set:search", "set:pathname", "set:username", "set:hash", "set:host", "set:hostname"}
 var c20Templates = []string{"http://u:p@h:81/p/q?a=b&c=d#f", "foo://u@h/p?q#f", "foo:opaque?q#f", "file:///C:/p?q#f", "https://a.b.c/x/../y/./z?%41=%42#%43", "http://h", "a:", "//h/p", "/p?q", "?q", "#f", ""}
